@@ -445,6 +445,105 @@ pub async fn fmt(seed: u64, thorough: bool) {
         }
         try_init_case(b, &mut st, "random").await;
     }
+    // what building a chunker from declared parameters asks the allocator for (C15: bounded by the declared
+    // window - four bytes per entry for BuzHash - and the 1 MiB stream buffer), against the model
+    let mut n_alloc = 0;
+    for &w in &[1usize, 16, 64, 1000, 65536, 262144, 262145, 300000, 1 << 20, (1 << 20) + 1, 3 << 20, 5_000_000] {
+        for algo in ["R", "B", "F"] {
+            let (cfg, tok) = match algo {
+                "R" => (
+                    Config::RollSum(bitar::chunker::FilterConfig {
+                        filter_bits: bitar::chunker::FilterBits::from_bits(10),
+                        min_chunk_size: 0,
+                        max_chunk_size: w.max(4096),
+                        window_size: w,
+                    }),
+                    format!("R 10 0 {} {}", w.max(4096), w),
+                ),
+                "B" => (
+                    Config::BuzHash(bitar::chunker::FilterConfig {
+                        filter_bits: bitar::chunker::FilterBits::from_bits(10),
+                        min_chunk_size: 0,
+                        max_chunk_size: w.max(4096),
+                        window_size: w,
+                    }),
+                    format!("B 10 0 {} {}", w.max(4096), w),
+                ),
+                _ => (Config::FixedSize(w), format!("F {}", w)),
+            };
+            let req = format!("chunker-alloc {}", tok);
+            println!("TRY\t{}", req);
+            h::alloc_probe::reset();
+            let r = h::catch(|| {
+                let chunker = cfg.new_chunker(&b""[..]);
+                let biggest = h::alloc_probe::max_request();
+                drop(chunker);
+                biggest
+            });
+            match r {
+                Ok(biggest) => h::emit_case(&req, &format!("max={}", biggest)),
+                Err(_) => {
+                    h::emit_case(&req, "panic");
+                    h::emit_oracle_fail("new-chunker-panic", &req);
+                }
+            }
+            n_alloc += 1;
+        }
+    }
+    h::emit_stat("chunker_allocation_cases", n_alloc);
+    // ... and while it scans: the buffer of the streaming chunker stays below 2 * (max chunk + REFILL_SIZE)
+    // (theorem scan_capacity_bounded), whatever the length of the input and however much a read delivers
+    let mut n_scan = 0;
+    for &(m, len) in &[(4096usize, 3_000_000usize), (1 << 20, 5 << 20), ((1 << 20) + 7, 6 << 20), (3 << 20, 13 << 20), (4 << 20, 2 << 20)] {
+        for algo in ["R", "B", "F"] {
+            let fc = bitar::chunker::FilterConfig {
+                filter_bits: bitar::chunker::FilterBits::from_bits(if m == 4096 { 9 } else { 30 }),
+                min_chunk_size: 0,
+                max_chunk_size: m,
+                window_size: 16,
+            };
+            let cfg = match algo {
+                "R" => Config::RollSum(fc),
+                "B" => Config::BuzHash(fc),
+                _ => Config::FixedSize(m),
+            };
+            let req = format!("scan-memory {} max={} len={}", algo, m, len);
+            println!("TRY\t{}", req);
+            let data: Vec<u8> = (0..len).map(|i| ((i as u64).wrapping_mul(2654435761) >> 13) as u8).collect();
+            h::alloc_probe::reset();
+            let r = tokio::time::timeout(std::time::Duration::from_secs(60), async {
+                use futures_util::StreamExt;
+                let mut chunker = cfg.new_chunker(&data[..]);
+                let mut total = 0usize;
+                let mut biggest_chunk = 0usize;
+                while let Some(item) = chunker.next().await {
+                    match item {
+                        Ok((_, c)) => {
+                            total += c.len();
+                            biggest_chunk = biggest_chunk.max(c.len());
+                        }
+                        Err(_) => break,
+                    }
+                }
+                (total, biggest_chunk)
+            })
+            .await;
+            let peak = h::alloc_probe::max_request();
+            match r {
+                Ok((total, biggest_chunk)) => {
+                    if total != len || biggest_chunk > m {
+                        h::emit_oracle_fail("scan-does-not-tile-the-input-within-the-maximum", &req);
+                    }
+                    if peak >= 2 * (m + (1 << 20)) {
+                        h::emit_oracle_fail("scan-buffer-allocation-beyond-twice-max-chunk-plus-refill", &format!("{} :: largest request {}", req, peak));
+                    }
+                }
+                Err(_) => h::hung(&req),
+            }
+            n_scan += 1;
+        }
+    }
+    h::emit_stat("scan_memory_cases", n_scan);
     h::emit_stat("cases", st.cases);
     for (k, v) in &st.kinds {
         h::emit_stat(&format!("kind_{}", k), *v);
